@@ -393,7 +393,7 @@ theorem moveStable_linkRel : MoveStable LinkRelAt where
     obtain ⟨h1, h2, h3, _⟩ := addChild_fields hr
     rw [h3, h2]; exact h (h1 ▸ hl)
 
-/-- `RefineA.entryOkB` (flags, type bits of the mode, link clause with an existing target) -/
+/-- `RefineA.entryOkB` (flags, canonical mode, link clause with an existing target) -/
 theorem moveStable_entryOk : MoveStable (fun k e => RefineA.entryOkB k e = true) where
   moved := by
     intro w e dst h _
